@@ -1018,6 +1018,30 @@ func (w *vfWorld) accept(ep int) int {
 	e := w.ep[ep]
 	n := 0
 	for {
+		// While the association lives the PUBLIC call is used (a stream is queued: it cannot block). Once the read loop
+		// has ended AcceptStream chooses at random between a queued stream and io.EOF, so the queue is read directly.
+		alive := true
+		select {
+		case <-e.a.readLoopCloseCh:
+			alive = false
+		default:
+		}
+		if alive {
+			if len(e.a.acceptCh) == 0 {
+				return n
+			}
+			s, err := e.a.AcceptStream()
+			if err != nil || s == nil {
+				w.tr.emit(map[string]any{"ev": "api", "ep": ep, "op": "accept", "sid": -1, "ok": false, "err": vfErrClass(err), "t": w.now()})
+				return n
+			}
+			sid := int(s.streamIdentifier)
+			e.streams[sid] = s
+			e.inc[sid]++
+			w.tr.emit(map[string]any{"ev": "api", "ep": ep, "op": "accept", "sid": sid, "ok": true, "err": "nil", "t": w.now()})
+			n++
+			continue
+		}
 		select {
 		case s, ok := <-e.a.acceptCh:
 			if !ok || s == nil {
